@@ -115,7 +115,11 @@ Definition corr_with (q : quirks) (c : reg_case) : bool :=
   let ml := vis_log (k_grp c) ml in
   negb (o_crash c)
   && Nat.eqb (List.length ml) (List.length (o_log c))
-  && forallb (fun n => list_eqb entry_eqb (log_of n ml) (log_of n (o_log c))) (k_names c)
+  (* the two consumers run concurrently: their relative order inside one snapshot is not an
+     observable; the log of a name is compared consumer by consumer *)
+  && forallb (fun n => forallb (fun w =>
+       list_eqb entry_eqb (filter (fun e => l_who e =? w) (log_of n ml))
+                          (filter (fun e => l_who e =? w) (log_of n (o_log c)))) [0; 1]) (k_names c)
   && list_eqb (step_obs_eqb (k_grp c)) ms (o_steps c).
 
 (** *** the property on observables (model-independent) *)
